@@ -3446,6 +3446,7 @@ class DecVar(Vars):
                          dvars.vtype, dvars.name)
         self.dro_model = dro_model
         self.event_adapt = [list(range(dro_model.num_scen))]
+        self.event_full = False
         self.rand_adapt = None
         self.ro_first = - 1
         self.fixed = fixed
@@ -3499,6 +3500,9 @@ class DecVar(Vars):
         # events = list(events) if isinstance(events, Iterable) else [events]
         events = [events] if isinstance(events, (str, Real)) else list(events)
 
+        if self.event_full:
+            raise KeyError('All scenarios have been defined.')
+
         for event in events:
             index = self.dro_model.series_scen[event]
             if index in self.event_adapt[0]:
@@ -3509,6 +3513,7 @@ class DecVar(Vars):
 
         if not self.event_adapt[0]:
             self.event_adapt.pop(0)
+            self.event_full = True
 
         self.event_adapt.append(list(self.dro_model.series_scen[events]))
 
